@@ -5,7 +5,7 @@ PROPS["C24"] = {
             "c24.pack: all 256 rows and the onEoi array of shiftdfa.Pack vs the model; c24.wf: the theorem's hypothesis wf24b evaluated on the same real tables; c24.scan: 12 random byte strings per packed automaton through Scanner.Scan and Tables.Scan; distinct = distinct tables/text sets",
     "modelled": "shiftdfa.Pack, Scanner.Scan (64-bit rows in N with explicit mod 2^64), lex.Tables.Scan (byte and rune decoding) mirrored; lex.Compile itself is not modelled here (its output tables are the input)",
     "partial": "",
-    "level_text": "Universal Coq theorem C24_pack_scan_agrees: for every well-formed table set accepted by the model of Pack and every byte string, the packed scanner (64-bit rows, shifts and masks modelled in N with explicit mod 2^64) returns exactly what the model of lex.Tables.Scan returns. The model of Pack is compared with shiftdfa.Pack on all 256 rows + onEoi for thousands of compiled rule sets per run, the well-formedness hypothesis is evaluated on those real tables, and every sampled scan is compared with both implementations.",
+    "level_text": "Universal Coq theorem C24_pack_scan_agrees: for every well-formed table set accepted by the model of Pack and every byte string, the packed scanner (64-bit rows, shifts and masks modelled in N with explicit mod 2^64) returns exactly what the model of lex.Tables.Scan returns. The layers of that proof are theorems of their own, each for all accepted table sets: Pack accepts iff its conditions hold (C24_pack_accepts_iff_conditions: <= 10 states, no backtracking, single start state, last class starts <= 0x80, < 32 actions, no shift on EOI); every 6-bit field of every packed 64-bit row decodes to the DFA transition, 2*action+1 or 6*target (C24_packed_field_is_transition, from the bit-level lemma C24_fields_read_back for all field positions); onEoi holds the EOI actions (C24_packed_eoi_is_action); the two scan loops agree from every state and offset (C24_scan_loops_simulate). The model of Pack is compared with shiftdfa.Pack on all 256 rows + onEoi for thousands of compiled rule sets per run, the well-formedness hypothesis is evaluated on those real tables, and every sampled scan is compared with both implementations.",
     "level_note": "Trusted: Coq kernel, extraction, glue; hook shiftdfa/verif_hooks.go only exposes the private table.",
     "technique": "Coq proof over a bit-level Gallina model + extracted-model differential correspondence",
     "assumptions": ["tables come from lex.Compile (well-formed: sorted symbol map starting at 0, targets within the table)"],
